@@ -10,7 +10,7 @@ package main
 //            what `l`/`r` ops do with a FRESH parser per op
 //   mode r   one fresh interpreter (NewZlisp + StandardSetup); every step is `(read "<text>")` through EvalString,
 //            i.e. the interpreter's own parser, shared by read / eval / source / EvalString
-//   mode e   the same interpreter; every step evaluates the text itself (a numeric literal evaluates to itself)
+//   mode e   the same interpreter; every step evaluates `(list <text>)`: the text as program text (a numeric literal evaluates to itself)
 // Steps:
 //   L:<codes>            the spelling <codes> (code points); answer as op `l`: `i <n>` | `u <n>` | `d <bits>` | err | nonnum
 //   Pi:<int>  Pu:<nat>   the number is PRINTED by the real printer and the printed text read back on the same reader;
@@ -84,12 +84,16 @@ func (r *rtReader) text(txt string) string {
 		if !safeForStringLiteral(txt) {
 			return "bad-op"
 		}
-		res, err := r.env.EvalString(txt + "\n")
+		// (list <text>): the text is read AND evaluated as program text; exactly one expression that is a number, or nonnum
+		res, err := r.env.EvalString("(list " + txt + ")\n")
 		if err != nil || res == nil {
 			r.env.Clear()
 			return "nonnum"
 		}
-		return numOrNonnum(res)
+		if p, ok := res.(*zygo.SexpPair); ok && p.Tail == zygo.SexpNull {
+			return numOrNonnum(p.Head)
+		}
+		return "nonnum"
 	}
 	return "bad-op"
 }
